@@ -138,6 +138,7 @@ static int p_crashSig = SIGKILL;   // how the run is interrupted at the crash op
 static int p_selTimeout, p_waitLag, p_loadavg;
 static int p_readdirShuffle, p_dtUnknown;
 static long p_clock;              // epoch seconds; 0 = real clock
+static long p_clockStep = 137;    // microseconds the simulated clock advances per reading (a slow or a fast machine)
 static uint64_t p_alloc;          // allocator seed; 0 = off
 static int p_traceSched = 1;
 struct DieFault { int worker; long msg; long off; int how; int arg; int fired; };
@@ -979,8 +980,8 @@ VIS int closedir(DIR* d) {
 static long g_clockReads;
 static void sim_now(struct timespec* ts) {
     long r = __atomic_add_fetch(&g_clockReads, 1, __ATOMIC_RELAXED);
-    // every reading advances time by 137 microseconds; select timeouts add whole seconds
-    long long ns = (long long)r * 137000LL;
+    // every reading advances time by p_clockStep microseconds (default 137); select timeouts add whole seconds
+    long long ns = (long long)r * 1000LL * (long long)p_clockStep;
     ts->tv_sec = p_clock + g_simClockExtra + (time_t)(ns / 1000000000LL);
     ts->tv_nsec = (long)(ns % 1000000000LL);
 }
@@ -1121,6 +1122,7 @@ __attribute__((constructor(200))) static void vsim_init() {
         else if (!strcmp(key, "readdir_shuffle")) p_readdirShuffle = atoi(val);
         else if (!strcmp(key, "dt_unknown")) p_dtUnknown = atoi(val);
         else if (!strcmp(key, "clock")) p_clock = atol(val);
+        else if (!strcmp(key, "clock_step")) p_clockStep = atol(val) > 0 ? atol(val) : 137;
         else if (!strcmp(key, "max_steps")) g_maxSteps = atol(val);
         else if (!strcmp(key, "trace_sched")) p_traceSched = atoi(val);
         else if (!strcmp(key, "die")) {
